@@ -962,6 +962,9 @@ def split_curve(obj, param, **kwargs):
     span_func = kwargs.get('find_span_func', helpers.find_span_linear)  # FindSpan implementation
     insert_knot_func = kwargs.get('insert_knot_func', insert_knot)  # Knot insertion algorithm
 
+    # Knots are identified up to a tolerance: work with the stored value of an existing knot
+    param = _stored_knots(obj, [param])[0]
+
     # Find multiplicity of the knot and define how many times we need to add the knot
     ks = span_func(obj.degree, obj.knotvector, len(obj.ctrlpts), param) - obj.degree + 1
     s = helpers.find_multiplicity(param, obj.knotvector)
@@ -972,6 +975,7 @@ def split_curve(obj, param, **kwargs):
 
     # Insert knot
     insert_knot_func(temp_obj, [param], num=[r], check_num=False)
+    param = _stored_knots(temp_obj, [param])[0]  # the knot as stored after the insertion
 
     # Knot vectors
     knot_span = span_func(temp_obj.degree, temp_obj.knotvector, len(temp_obj.ctrlpts), param) + 1
@@ -1127,6 +1131,7 @@ def split_surface_u(obj, param, **kwargs):
     insert_knot_func = kwargs.get('insert_knot_func', insert_knot)  # Knot insertion algorithm
 
     # Find multiplicity of the knot
+    param = _stored_knots(obj, [param, None])[0]  # stored value of an existing knot
     ks = span_func(obj.degree_u, obj.knotvector_u, obj.ctrlpts_size_u, param) - obj.degree_u + 1
     s = helpers.find_multiplicity(param, obj.knotvector_u)
     r = obj.degree_u - s
@@ -1136,6 +1141,7 @@ def split_surface_u(obj, param, **kwargs):
 
     # Split the original surface
     insert_knot_func(temp_obj, [param, None], num=[r, 0], check_num=False)
+    param = _stored_knots(temp_obj, [param, None])[0]  # the knot as stored after the insertion
 
     # Knot vectors
     knot_span = span_func(temp_obj.degree_u, temp_obj.knotvector_u, temp_obj.ctrlpts_size_u, param) + 1
@@ -1200,6 +1206,7 @@ def split_surface_v(obj, param, **kwargs):
     insert_knot_func = kwargs.get('insert_knot_func', insert_knot)  # Knot insertion algorithm
 
     # Find multiplicity of the knot
+    param = _stored_knots(obj, [None, param])[1]  # stored value of an existing knot
     ks = span_func(obj.degree_v, obj.knotvector_v, obj.ctrlpts_size_v, param) - obj.degree_v + 1
     s = helpers.find_multiplicity(param, obj.knotvector_v)
     r = obj.degree_v - s
@@ -1209,6 +1216,7 @@ def split_surface_v(obj, param, **kwargs):
 
     # Split the original surface
     insert_knot_func(temp_obj, [None, param], num=[0, r], check_num=False)
+    param = _stored_knots(temp_obj, [None, param])[1]  # the knot as stored after the insertion
 
     # Knot vectors
     knot_span = span_func(temp_obj.degree_v, temp_obj.knotvector_v, temp_obj.ctrlpts_size_v, param) + 1
